@@ -53,3 +53,38 @@ Definition extends (st st' : kstore) : Prop :=
   forall n k, lookup n (ks st) = Some k -> lookup n (ks st') = Some k.
 
 Definition is_import (o : op) : bool := match o with OImport _ _ => true | _ => false end.
+
+(* ---- correspondence: the names the keystore writes, in order, during the first use of a store ----
+   [imported]: the account keys were imported first (those two puts are not listed: their order is
+   that of a Go map).  Then, as the harness does: the group of the kind is obtained (kind 0: a
+   multi-member group, nothing derived; 1: the account group; 2: the group of contact 9), its
+   member/device pair is asked for, and the account keys are exported. *)
+Definition first_use_ops (kind : N) : list op :=
+  (if kind =? 0 then [OMemberDevice GMulti 7]
+   else if kind =? 1 then [OMemberDevice GAccount 0]
+   else [OGroupForContact 9; OMemberDevice GContact 9]) ++ [OExport].
+
+Definition names_written (imported : bool) (kind : N) : list name :=
+  let st0 := {| ks := []; next := 1 |} in
+  let st1 := if imported then fst (kstep st0 (OImport (BKey (Fresh 101)) (BKey (Fresh 102)))) else st0 in
+  let st2 := krun st1 (first_use_ops kind) in
+  skipn (length (ks st1)) (rev (map fst (ks st2))).
+
+Fixpoint names_eqb (a b : list name) : bool :=
+  match a, b with
+  | [], [] => true
+  | x :: a', y :: b' => name_eqb x y && names_eqb a' b'
+  | _, _ => false
+  end.
+
+Inductive case := CKeyWrites (imported : bool) (kind : N) (names : list name).
+
+Definition check_case (c : case) : bool :=
+  match c with CKeyWrites imported kind names => names_eqb (names_written imported kind) names end.
+
+Fixpoint mismatches_from (i : N) (cs : list case) : list N :=
+  match cs with
+  | [] => []
+  | c :: cs' => if check_case c then mismatches_from (i + 1) cs' else i :: mismatches_from (i + 1) cs'
+  end.
+Definition mismatches := mismatches_from 0.
